@@ -1082,3 +1082,119 @@ def c08_n9(ctx):
                     yield bad("C08-N9", "%s:entry.%s" % (f.name, last), at(f, t["span"]["line"]), "a pending delayed check's counter is %s-ed" % last)
     if n < 3:
         raise Anchor("C08-N9", "uses of RecvTransaction.delayed_nack_timers")
+
+
+# ================================================================ C10-K7
+@rule("C10", "C10-K7", 1, "the sender's pending-EOF mark is cleared only by handing the EOF to the transport: nothing else (an ACK of an earlier EOF, a timer) can swallow an EOF that still has to go out", also=("C07",))
+def c10_k7(ctx):
+    fns = impl_fns(ctx, SEND)
+    # setters: methods that store their bool parameter into the pending mark of self.eof
+    from rules_wiring import _root_local
+
+    setters = {}
+    for g in fns:
+        ebg = ExprBuilder(ctx.prog, g)
+        for b in g.live_blocks():
+            for s in g.blocks[b]["stmts"]:
+                if s["k"] != "assign" or not s["place"]["proj"] or s["place"]["proj"][-1].get("k") != "field" or s["place"]["proj"][-1].get("idx") != 1:
+                    continue
+                # the pending mark: field 1 of the (EndOfFile, bool) held in self.eof, written directly or through as_mut()
+                base = dict(s["place"])
+                base["proj"] = s["place"]["proj"][:-1]
+                bt = expr_str(ebg.place(base)) if base["proj"] else expr_str(ebg.local(base["local"]))
+                mv = re.match(r"^(\w+)(\.\*)?$", bt)
+                if mv:
+                    bt = " ".join(expr_str(x) for x in ebg.var_defs(mv.group(1)))
+                if "self.eof" not in bt:
+                    continue
+                rv = s["rv"]
+                if rv["k"] == "use" and rv["op"].get("k") in ("copy", "move") and not rv["op"]["place"]["proj"]:
+                    l = _root_local(g, rv["op"]["place"]["local"])
+                    if 2 <= l <= g.arg_count:
+                        setters[g.norm] = l - 1
+    n = 0
+    for f in fns:
+        eb = ExprBuilder(ctx.prog, f)
+        dom = None
+        clears = []
+        for b, t in f.all_calls():
+            d, r, _ = ctx.prog.callee_of(t)
+            cal = r or d or ""
+            if cal in setters:
+                e = eb.call(b, t)
+                a = e[3][setters[cal]] if len(e[3]) > setters[cal] else None
+                if a is not None and a[0] == "const" and a[1] in (0, False):
+                    clears.append((b, t["span"]["line"], "%s(false)" % cal.split("::")[-1]))
+                elif a is not None and not (a[0] == "const"):
+                    clears.append((b, t["span"]["line"], "%s(%s)" % (cal.split("::")[-1], expr_str(a)[:40])))
+        for _f, b, j, s, ps in field_writes([f], "self.eof"):
+            if f.norm in setters or j < 0 or f.name == "new":
+                continue
+            e = simp(eb.rvalue(s["rv"]))
+            txt = expr_str(e)
+            if ps == "self.eof" and re.search(r"const\(1\)\}\}$", txt):
+                continue  # a fresh EOF marked pending
+            if re.search(r"\.1$", ps) and e[0] == "const" and e[1] in (1, True):
+                continue
+            clears.append((b, s["span"]["line"], "%s <- %s" % (ps, txt[:60])))
+        if not clears:
+            continue
+        dom = dominators(f)
+        sends = []
+        for b, t in f.all_calls():
+            e = eb.call(b, t)
+            if (callee_name(e) or "").endswith("Permit::send") and "Operations::EoF" in expr_str(e)[:4000]:
+                sends.append(b)
+        for b, line, what in clears:
+            n += 1
+            key = "%s:%s" % (f.name, what.split("(")[0].split(" ")[0]) + ("#%d" % n if n > 1 else "")
+            if any(sb in dom.get(b, ()) and sb != b for sb in sends):
+                yield ok("C10-K7", key, at(f, line), "%s after the EOF was handed to the transport" % what)
+            else:
+                yield bad("C10-K7", key, at(f, line), "%s clears the pending-EOF mark without the EOF having been sent here: an EOF (e.g. the one announcing a cancel) queued in the meantime is never transmitted" % what)
+    if n == 0:
+        raise Anchor("C10-K7", "the place where the pending-EOF mark is cleared")
+
+
+# ================================================================ C10-K8
+@rule("C10", "C10-K8", 2, "a cancelled sender transmits no more file data: whatever hands file data to the transport runs only in the data / EOF phases", also=("C07",))
+def c10_k8(ctx):
+    from common import val_in, val_not
+
+    f = ctx.one("C10-K8", "SendTransaction::send_pdu")
+    names = ctx.prog.variant_names("cfdp_daemon::transaction::send::SendState")
+    if not names:
+        raise Anchor("C10-K8", "enum SendState")
+    allv = set(names.values())
+    allowed = {"SendData", "SendEof"}
+    # emitters: methods that (transitively) build a file-data payload
+    fns = impl_fns(ctx, SEND)
+    direct = {g.norm for g in fns if any(True for _ in agg_sites([g], "PDUPayload", "FileData"))}
+    emit = set(direct)
+    for _ in range(3):
+        for g in fns:
+            if g.norm not in emit and g.name != "send_pdu" and any((ctx.prog.callee_of(t)[1] or ctx.prog.callee_of(t)[0] or "") in emit for b, t in g.all_calls()):
+                emit.add(g.norm)
+    if not emit:
+        raise Anchor("C10-K8", "the sender method that builds PDUPayload::FileData")
+
+    def track(key):
+        return key[0] == "val" and key[1] == "self.send_state"
+
+    fl = Flow(ctx.prog, ctx.mods, f, track)
+    n = 0
+    for b, t in f.all_calls():
+        cal = ctx.prog.callee_of(t)[1] or ctx.prog.callee_of(t)[0] or ""
+        if cal not in emit:
+            continue
+        n += 1
+        key = "send_pdu->%s" % cal.split("::")[-1] + ("#%d" % n if n > 1 else "")
+        worlds = fl.at_term(b)
+        good = bool(worlds) and all(val_in(dict(w), "self.send_state", allowed) or val_not(dict(w), "self.send_state", allv - allowed) for w in worlds)
+        if good:
+            yield ok("C10-K8", key, at(f, t["span"]["line"]), "only in the SendData / SendEof phases")
+        else:
+            bw = [w for w in worlds if not (val_in(dict(w), "self.send_state", allowed) or val_not(dict(w), "self.send_state", allv - allowed))]
+            yield bad("C10-K8", key, at(f, t["span"]["line"]), "file data can be handed to the transport outside the data / EOF phases (state %s): a cancelled sender keeps answering NAKs and the receiver can still complete and publish the file" % (world_str(bw[0]) if bw else "unreachable"))
+    if n == 0:
+        raise Anchor("C10-K8", "calls of the file-data emitters in send_pdu")
